@@ -1,7 +1,8 @@
 /-
 The invariant of every history that does not panic: root paths pairwise different, no ServeMux
 pattern registered twice, and the ServeMux holds exactly (up to order) the patterns a new container
-registers for the current services, plus the plain handlers registered since the last `Remove`.
+registers for the current services (`Spec.regFrom`: every wanted pattern once, for the first service
+that wants it), plus the plain handlers registered since the last `Remove`.
 -/
 import Restful.Lemmas.RegistryReg
 namespace Restful
@@ -12,11 +13,11 @@ structure Inv (st : State) : Prop where
   rootsNodup : (roots st.services).Nodup
   keys : Mux.Keys st.mux
   flag : st.onRoot = Spec.flagFrom (roots st.services) false
-  perm : st.mux.Perm ((Spec.patsFrom (roots st.services) false).map dispE ++ st.live.map plainE)
+  perm : st.mux.Perm ((Spec.regFrom (roots st.services) [] false).map dispE ++ st.live.map plainE)
   liveNe : ∀ h ∈ st.live, h.1 ≠ []
 
 theorem init_inv (k : RouterKind) : Inv (init k) := by
-  refine ⟨?_, ?_, ?_, ?_, ?_⟩ <;> simp [init, roots, Mux.Keys, Spec.flagFrom, Spec.patsFrom]
+  refine ⟨?_, ?_, ?_, ?_, ?_⟩ <;> simp [init, roots, Mux.Keys, Spec.flagFrom, Spec.regFrom]
 
 /-! ### roots under the route operations -/
 
@@ -36,34 +37,6 @@ theorem roots_onService (root : Str) (f : Svc → Svc) (hf : ∀ s, (f s).root =
   split
   · exact hf s
   · rfl
-
-/-! ### the `alreadyMapped` scan never finds anything -/
-
-theorem alreadyMapped_of_nodup {all : List Svc} (hn : (roots all).Nodup) {e : Svc} (he : e ∈ all) :
-    alreadyMapped all e = false := by
-  cases h : alreadyMapped all e with
-  | false => rfl
-  | true =>
-    unfold alreadyMapped at h
-    simp only [List.any_eq_true, Bool.and_eq_true, bne_iff_ne, ne_eq, beq_iff_eq] at h
-    obtain ⟨each, hm, hid, hroot⟩ := h
-    have : each = e := nodup_map_inj (f := fun s : Svc => s.root) (l := all) hn hm he hroot
-    subst this
-    exact absurd rfl hid
-
-theorem alreadyMapped_of_new {all : List Svc} {s : Svc} (h : (all.any fun each => each.root == s.root) = false) :
-    alreadyMapped all s = false := by
-  cases hx : alreadyMapped all s with
-  | false => rfl
-  | true =>
-    unfold alreadyMapped at hx
-    simp only [List.any_eq_true, Bool.and_eq_true, beq_iff_eq] at hx
-    obtain ⟨each, hm, _, hroot⟩ := hx
-    have : (all.any fun each => each.root == s.root) = true := by
-      simp only [List.any_eq_true, beq_iff_eq]
-      exact ⟨each, hm, hroot⟩
-    rw [h] at this
-    cases this
 
 theorem not_mem_roots_of_any {all : List Svc} {s : Svc} (h : (all.any fun each => each.root == s.root) = false) :
     s.root ∉ roots all := by
@@ -86,7 +59,7 @@ theorem keys_nodup_iff (t : Mux.Table) : Mux.Keys t ↔ (keys t).Nodup := Iff.rf
 theorem step_add_cases {st st' : State} {s : Svc} (h : step st (.add s) = .ok st') :
     (st.services.any fun each => each.root == s.root) = false ∧
     ((st.onRoot = true ∧ st' = { st with services := st.services ++ [s] }) ∨
-     (st.onRoot = false ∧ ∃ t, regList st.mux (Spec.regPatterns s.root) = .ok t ∧
+     (st.onRoot = false ∧ ∃ t, regList st.mux (Spec.newPatterns (mapped st.services) s.root) = .ok t ∧
         st' = { st with mux := t, onRoot := Spec.isRootPattern s.root, services := st.services ++ [s] })) := by
   simp only [step] at h
   cases hd : (st.services.any fun each => each.root == s.root) with
@@ -100,24 +73,25 @@ theorem step_add_cases {st st' : State} {s : Svc} (h : step st (.add s) = .ok st
       exact Or.inl ⟨rfl, h.symm⟩
     | false =>
       simp only [ho, Bool.false_eq_true, if_false] at h
-      rw [addHandler_eq st.mux (alreadyMapped_of_new hd)] at h
-      cases hr : regList st.mux (Spec.regPatterns s.root) with
+      rw [addHandler_eq st.services s st.mux] at h
+      cases hr : regList st.mux (Spec.newPatterns (mapped st.services) s.root) with
       | error e => rw [hr] at h; cases h
       | ok t =>
         rw [hr] at h
         simp only [Except.ok.injEq] at h
         exact Or.inr ⟨rfl, t, rfl, h.symm⟩
 
-theorem step_remove_cases {st st' : State} {root : Str} (hn : (roots st.services).Nodup)
-    (h : step st (.remove root) = .ok st') :
-    ∃ t, regList [] (Spec.patsFrom (roots (st.services.filter fun each => each.root != root)) false) = .ok t ∧
+theorem step_remove_cases {st st' : State} {root : Str} (h : step st (.remove root) = .ok st') :
+    ∃ t, regList [] (Spec.regFrom (roots (st.services.filter fun each => each.root != root)) [] false) = .ok t ∧
       st' = { st with services := st.services.filter (fun each => each.root != root), mux := t,
                       onRoot := Spec.flagFrom (roots (st.services.filter fun each => each.root != root)) false,
                       live := [] } := by
   simp only [step] at h
-  rw [rebuild_eq st.services root st.services [] false (fun e he => alreadyMapped_of_nodup hn he)] at h
+  rw [rebuild_eq root st.services [] [] false] at h
+  have hm : mapped [] = [] := rfl
+  rw [hm] at h
   unfold regAll at h
-  cases hr : regList [] (Spec.patsFrom (roots (st.services.filter fun each => each.root != root)) false) with
+  cases hr : regList [] (Spec.regFrom (roots (st.services.filter fun each => each.root != root)) [] false) with
   | error e => rw [hr] at h; cases h
   | ok t =>
     rw [hr] at h
@@ -152,19 +126,20 @@ theorem step_inv {st st' : State} {op : Op} (inv : Inv st) (h : step st op = .ok
     · have hf : Spec.flagFrom (roots st.services) false = true := by rw [← inv.flag]; exact ho
       refine ⟨hroots, inv.keys, ?_, ?_, inv.liveNe⟩
       · simp only [roots_append, flagFrom_append, hf, if_true]; exact ho
-      · simp only [roots_append, patsFrom_append, hf, if_true, List.append_nil]; exact inv.perm
+      · simp only [roots_append, regFrom_append, hf, if_true, List.append_nil]; exact inv.perm
     · have hf : Spec.flagFrom (roots st.services) false = false := by rw [← inv.flag]; exact ho
       obtain ⟨rfl, hnd, _⟩ := regList_ok inv.keys hr
       refine ⟨hroots, ?_, ?_, ?_, inv.liveNe⟩
-      · show Mux.Keys (st.mux ++ (Spec.regPatterns s.root).map dispE)
+      · show Mux.Keys (st.mux ++ (Spec.newPatterns (mapped st.services) s.root).map dispE)
         rw [keys_nodup_iff, keys_append, keys_dispE]; exact hnd
       · simp only [roots_append, flagFrom_append, hf, Bool.false_eq_true, if_false]
-      · simp only [roots_append, patsFrom_append, hf, Bool.false_eq_true, if_false, List.map_append]
+      · simp only [roots_append, regFrom_append, hf, Bool.false_eq_true, if_false, List.map_append, List.nil_append,
+          ← mapped_eq]
         refine (inv.perm.append_right _).trans ?_
         rw [List.append_assoc, List.append_assoc]
         exact List.Perm.append_left _ List.perm_append_comm
   | remove root =>
-    obtain ⟨t, hr, rfl⟩ := step_remove_cases inv.rootsNodup h
+    obtain ⟨t, hr, rfl⟩ := step_remove_cases h
     obtain ⟨rfl, hnd, _⟩ := regList_ok (t := []) (by simp [Mux.Keys]) hr
     refine ⟨?_, ?_, rfl, ?_, ?_⟩
     · exact inv.rootsNodup.sublist ((List.filter_sublist).map _)
